@@ -56,7 +56,7 @@ def run_job(job):
     seed, index = job["seed"], job["index"]
     rng = rng_for("graph", seed, index)
     size = job.get("size") or rng.choice(["small", "small", "medium"])
-    g = gen_graph.generate(rng, size)
+    g = gen_graph.generate(rng, size, dummy_archives=True)
     workdir = scratch_dir(f"g{index}")
     res = {"violations": [], "counters": {}, "distinct": [], "samples": [], "runs": 0,
            "steps": 0, "switches": 0}
